@@ -22,7 +22,8 @@ class Sorter(Protocol):
 class NoSorter(Sorter):
     def sort_files(self, trashed_files,  # type: Iterable[TrashedFile]
                    ):  # type: (...) -> Iterable[TrashedFile]
-        return trashed_files
+        # a list like the other sorters return: the caller takes its len()
+        return list(trashed_files)
 
 
 class SortFunction(Sorter):
